@@ -1280,9 +1280,21 @@ def rule_py_length_prefix_measures_payload(out):
             pass
         # statement order inside the function body (top level and nested blocks, in source order)
         calls = sorted((c for c in ast.walk(fn) if isinstance(c, ast.Call) and isinstance(c.func, ast.Attribute)), key=lambda c: (c.lineno, c.col_offset))
+        # explaining locals assigned once in the function: `byte_count = len(encoded)`
+        assigned = {}
+        for a in ast.walk(fn):
+            if isinstance(a, ast.Assign) and len(a.targets) == 1 and isinstance(a.targets[0], ast.Name):
+                assigned.setdefault(a.targets[0].id, []).append(a.value)
+            elif isinstance(a, ast.AnnAssign) and isinstance(a.target, ast.Name) and a.value is not None:
+                assigned.setdefault(a.target.id, []).append(a.value)
+            elif isinstance(a, ast.AugAssign) and isinstance(a.target, ast.Name):
+                assigned.setdefault(a.target.id, []).append(None)
         for c in calls:
-            if c.func.attr == "write_unsigned_varint" and c.args and isinstance(c.args[0], ast.Call) and isinstance(c.args[0].func, ast.Name) and c.args[0].func.id == "len" and c.args[0].args:
-                measured = (ast.unparse(c.args[0].args[0]), c)
+            arg0 = c.args[0] if c.args else None
+            if isinstance(arg0, ast.Name) and len(assigned.get(arg0.id, [])) == 1 and assigned[arg0.id][0] is not None:
+                arg0 = assigned[arg0.id][0]
+            if c.func.attr == "write_unsigned_varint" and isinstance(arg0, ast.Call) and isinstance(arg0.func, ast.Name) and arg0.func.id == "len" and arg0.args:
+                measured = (ast.unparse(arg0.args[0]), c)
             elif c.func.attr == "write_bytes" and c.args and measured is not None:
                 n += 1
                 payload = ast.unparse(c.args[0])
@@ -1339,6 +1351,9 @@ def rule_py_flags_names_only_when_complete(out):
                 names_list = tgt.id
         if isinstance(n, ast.AugAssign) and isinstance(n.op, ast.BitAnd) and isinstance(n.target, ast.Name):
             remaining = n.target.id
+        if (isinstance(n, ast.Assign) and len(n.targets) == 1 and isinstance(n.targets[0], ast.Name) and isinstance(n.value, ast.BinOp) and isinstance(n.value.op, ast.BitAnd)
+                and isinstance(n.value.left, ast.Name) and n.value.left.id == n.targets[0].id):
+            remaining = n.targets[0].id  # `rem = rem & ~bits`
     if not names_list or not remaining:
         out.undecided(rid, "to_json/variables", pos(rel, fn), "the list of names / the remaining-bits variable was not recognised")
         return
@@ -1347,37 +1362,39 @@ def rule_py_flags_names_only_when_complete(out):
         for ch in ast.iter_child_nodes(n):
             parents[ch] = n
 
-    def is_zero_test(t):
-        if isinstance(t, ast.Compare) and len(t.ops) == 1 and isinstance(t.ops[0], ast.Eq):
+    def in_loop(t):
+        cur = parents.get(t)
+        while cur is not None and cur is not fn:
+            if isinstance(cur, (ast.For, ast.While)):
+                return True
+            cur = parents.get(cur)
+        return False
+
+    def zero_known(t, v):
+        """the literal (t, v) says that the remaining bits are zero, and is tested after the loop that clears them"""
+        if in_loop(t):
+            return False
+        if isinstance(t, ast.Compare) and len(t.ops) == 1 and isinstance(t.ops[0], (ast.Eq, ast.NotEq)):
             a, b = t.left, t.comparators[0]
             for x, y in ((a, b), (b, a)):
-                if isinstance(x, ast.Name) and x.id == remaining and isinstance(y, ast.Constant) and y.value == 0:
-                    return True
-        return isinstance(t, ast.UnaryOp) and isinstance(t.op, ast.Not) and isinstance(t.operand, ast.Name) and t.operand.id == remaining
+                if isinstance(x, ast.Name) and x.id == remaining and isinstance(y, ast.Constant) and y.value == 0 and type(y.value) is int:
+                    return v == isinstance(t.ops[0], ast.Eq)
+        if isinstance(t, ast.Name) and t.id == remaining:
+            return not v
+        return False
 
-    k = 0
-    for r in ast.walk(fn):
-        if not isinstance(r, ast.Return) or r.value is None:
-            continue
-        uses = [x for x in ast.walk(r.value) if isinstance(x, ast.Name) and x.id == names_list]
-        if not uses:
-            continue
-        k += 1
-        ok = True
-        for u in uses:
-            guarded = False
-            cur, child = parents.get(u), u
-            while cur is not None and cur is not fn:
-                if isinstance(cur, ast.If) and is_zero_test(cur.test) and child in cur.body:
-                    guarded = True
-                if isinstance(cur, ast.IfExp) and is_zero_test(cur.test) and child is cur.body:
-                    guarded = True
-                child, cur = cur, parents.get(cur)
-            ok = ok and guarded
-        out.check(ok, rid, "to_json/return names#%d" % k, pos(rel, r), "returned under `%s == 0`" % remaining,
-                  "the list of names can be returned while `%s` is not known to be zero: a flags value with a bit that no name covers is written as the names alone and the bit is lost" % remaining)
-    if k == 0:
+    pe = PathEnum(tree)
+    paths = [q for q in pe.paths(fn.body) if q.outcome == "return" and q.ret is not None and re.search(r"\b%s\b" % re.escape(names_list), q.ret)]
+    if pe.overflow or not paths:
         out.undecided(rid, "to_json/returns", pos(rel, fn), "no return of the list of names found")
+        return
+    bad = None
+    for q in paths:
+        # a conditional expression `names if rem == 0 else value.value` carries its own test
+        if not any(zero_known(t, v) for t, v in q.lits) and not re.search(r"\bif\s+(%s\s*==\s*0|not\s+%s)\s+else\b" % (re.escape(remaining), re.escape(remaining)), q.ret):
+            bad = q
+    out.check(bad is None, rid, "to_json/return names#1", pos(rel, fn), "returned only where `%s` is known to be 0 (tested after the loop)" % remaining,
+              "the list of names can be returned while `%s` is not known to be zero: a flags value with a bit that no name covers is written as the names alone and the bit is lost" % remaining)
 
 
 _PY_TRIVIAL = {
@@ -1431,25 +1448,38 @@ def rule_py_map_shape_by_schema(out):
     if cls is None:
         out.undecided(rid, "anchor/MapConverter", rel, "class not found")
         return
+    # predicates of the class that ask the key converter: `def _has_string_keys(self): return isinstance(self._key_converter, ...)`
+    schema_preds = set()
+    for name, m in methods(cls).items():
+        rets = [r for r in ast.walk(m) if isinstance(r, ast.Return) and r.value is not None]
+        if len(rets) == 1 and len(m.body) <= 2 and any(isinstance(x, ast.Attribute) and x.attr == "_key_converter" for x in ast.walk(rets[0].value)):
+            schema_preds.add(name)
+
+    def asks_schema(test):
+        for x in ast.walk(test):
+            if isinstance(x, ast.Attribute) and x.attr == "_key_converter":
+                return True
+            if isinstance(x, ast.Call) and isinstance(x.func, ast.Attribute) and x.func.attr in schema_preds and isinstance(x.func.value, ast.Name) and x.func.value.id == "self":
+                return True
+        return False
     for mname in ("to_json", "from_json"):
         fn = methods(cls).get(mname)
         if fn is None:
             out.undecided(rid, "MapConverter.%s" % mname, rel, "method not found")
             continue
-        # the first `if` of the method whose body returns a dict comprehension / dict (the object form)
-        decided = None
-        for st in ast.walk(fn):
-            if isinstance(st, ast.If):
-                returns_dict = any(isinstance(r, ast.Return) and isinstance(r.value, (ast.DictComp, ast.Dict)) for b in st.body for r in ast.walk(b))
-                if returns_dict and decided is None:
-                    decided = st
-        if decided is None:
-            out.undecided(rid, "MapConverter.%s/object form" % mname, pos(rel, fn), "the branch that returns the JSON object form was not found")
+        # every path that returns a value has passed a test of the key converter: the form it returns was chosen by the schema
+        pe = PathEnum(tree)
+        paths = [q for q in pe.paths(fn.body) if q.outcome == "return"]
+        if pe.overflow or len(paths) < 2:
+            out.undecided(rid, "MapConverter.%s/object form" % mname, pos(rel, fn), "the branch that returns the JSON object form was not found (%d returning paths)" % len(paths))
             continue
-        by_schema = any(isinstance(x, ast.Attribute) and x.attr == "_key_converter" for x in ast.walk(decided.test))
-        out.check(by_schema, rid, "MapConverter.%s/object form" % mname, pos(rel, decided), "chosen by self._key_converter",
-                  "the object form is chosen by `%s`, not by the key converter: an empty map (or one whose keys happen to be strings) takes the form of a string-keyed map, "
-                  "which the other languages' readers reject for this key type" % ast.unparse(decided.test)[:80])
+        bad = None
+        for q in paths:
+            if not any(asks_schema(t) for t, _v in q.lits):
+                bad = q
+        out.check(bad is None, rid, "MapConverter.%s/object form" % mname, pos(rel, fn), "every returning path chose its form by self._key_converter",
+                  "a path returns `%s` having tested only `%s`, not the key converter: an empty map (or one whose keys happen to be strings) takes the form of a string-keyed map, "
+                  "which the other languages' readers reject for this key type" % ((bad.ret or "")[:60] if bad else "", " and ".join(ast.unparse(t)[:50] for t, _v in bad.lits)[:160] if bad else ""))
 
 
 def rule_py_fixed_containers_have_no_length(out):
